@@ -1174,8 +1174,7 @@ def known_region(a, v, site, error, mem, env):
     return "c02-none-matches-bool"
   if has_coll(a):
     return "c02-collection-structural"
-  if not in_f2_val(v) and site != "arg":
-    return "c02-set-display-hidden-elements"
+  # (the region c02-set-display-hidden-elements is gone: repaired by 8039531; its witness is replayed as "fixed")
   if site == "arg" and multi_display(v):
     return "c02-arg-any-view"
   if multi_display(v) and any(u[0] == "union" and sum(1 for o in u[1] if not is_flat_ann(o)) >= 2
